@@ -119,17 +119,17 @@ theorem trackChild_k (k : Child) (hk : RespKidOk conf request k) : Keeps (KidsI 
     · exact h.2 x hx
     · exact Or.inr hk
 
-theorem untrackChild_me (k : Child) (s : HSt) : (untrackChild k s).2.me = s.me.setKids (removeKid s.me.ext.kids k) := rfl
-
 /-- removing a record keeps "old or accepted" -/
 @[keepsKernel] theorem untrackChild_k (k : Child) : Keeps (KidsI conf request kids0) (untrackChild k) := by
   constructor
   intro s h
-  rw [KidsI, untrackChild_me]
-  refine ⟨h.1, ?_⟩
-  intro x hx
-  simp only [XSa.setKids, removeKid] at hx
-  exact h.2 x (List.mem_of_mem_eraseP hx)
+  rcases untrackChild_me k s with h1 | h1
+  · exact ⟨by rw [h1]; exact h.1, by rw [h1]; exact h.2⟩
+  · rw [KidsI, h1]
+    refine ⟨h.1, ?_⟩
+    intro x hx
+    simp only [XSa.setKids, removeKid] at hx
+    exact h.2 x (List.mem_of_mem_eraseP hx)
 
 /-- the path conditions of `_process_create_child_sa_negotiation_req` justify the record it creates -/
 theorem respKid_ok (sa : List Proposal) (tsis tsrs : List TS) (hsa : paySA request true = .ok sa)
@@ -263,6 +263,8 @@ macro "keeps_k2" : tactic => `(tactic| repeat' (first
   unfold processIkeAuthRequest; keeps_k2
 @[keepsKernel] theorem processInformationalRequest_k (m) : Keeps (KidsI conf request kids0) (processInformationalRequest m) := by
   unfold processInformationalRequest; keeps_k2
+@[keepsKernel] theorem ikeRekeyRequest_k (now m p) : Keeps (KidsI conf request kids0) (ikeRekeyRequest now m p) := by
+  unfold ikeRekeyRequest; keeps_k2
 @[keepsKernel] theorem processCreateChildSaRequest_k (now) : Keeps (KidsI conf request kids0) (processCreateChildSaRequest now request) := by
   unfold processCreateChildSaRequest; keeps_k2
 
@@ -399,11 +401,13 @@ theorem trackChild_i (k : Child) (hk : InitKidOk cr response k) : Keeps (InitI c
 @[keepsInit] theorem untrackChild_i (k : Child) : Keeps (InitI cr response kids0) (untrackChild k) := by
   constructor
   intro s h
-  rw [InitI, untrackChild_me]
-  refine ⟨by simpa [XSa.setKids] using h.1, ?_⟩
-  intro x hx
-  simp only [XSa.setKids, removeKid] at hx
-  exact h.2 x (List.mem_of_mem_eraseP hx)
+  rcases untrackChild_me k s with h1 | h1
+  · exact ⟨by rw [h1]; exact h.1, by rw [h1]; exact h.2⟩
+  · rw [InitI, h1]
+    refine ⟨by simpa [XSa.setKids] using h.1, ?_⟩
+    intro x hx
+    simp only [XSa.setKids, removeKid] at hx
+    exact h.2 x (List.mem_of_mem_eraseP hx)
 
 theorem setCreating_i (k : Child) (hk : InitKidOk cr response k) :
     Keeps (InitI cr response kids0) (modExt fun e => { e with creating := some k }) := by
@@ -508,6 +512,10 @@ macro "keeps_i2" : tactic => `(tactic| repeat' (first
   unfold processIkeSaInitResponse; keeps_i2
 @[keepsInit] theorem processIkeAuthResponse_i : Keeps (InitI cr response kids0) (processIkeAuthResponse response) := by
   unfold processIkeAuthResponse; keeps_i2
+@[keepsInit] theorem ikeRekeyResponse_i (now x) : Keeps (InitI cr response kids0) (ikeRekeyResponse now response x) := by
+  unfold ikeRekeyResponse; keeps_i2
+@[keepsInit] theorem childSaResponse_i (prev) : Keeps (InitI cr response kids0) (childSaResponse prev response) := by
+  unfold childSaResponse; keeps_i2
 @[keepsInit] theorem processCreateChildSaResponse_i (now) : Keeps (InitI cr response kids0) (processCreateChildSaResponse now response) := by
   unfold processCreateChildSaResponse; keeps_i2
 @[keepsInit] theorem processInformationalResponse_i (m) : Keeps (InitI cr response kids0) (processInformationalResponse m) := by
